@@ -342,6 +342,7 @@ impl LogThread {
     /// CWE warnings and log messages are deduplicated if two messages share the same address of origin.
     /// In such a case only the last message received is kept.
     /// If a CWE message has more than one address only the first address is considered when deduplicating.
+    /// CWE messages without an address are not deduplicated.
     /// Note that this may lead to information loss if log messages with the same origin address that are not duplicates are generated.
     ///
     /// This function can be used as a standard collector function for [`LogThread::spawn`].
@@ -351,6 +352,7 @@ impl LogThread {
         let mut logs_with_address = BTreeMap::new();
         let mut general_logs = Vec::new();
         let mut collected_cwes = BTreeMap::new();
+        let mut cwes_without_address = Vec::new();
 
         while let Ok(log_thread_msg) = receiver.recv() {
             match log_thread_msg {
@@ -362,7 +364,9 @@ impl LogThread {
                     }
                 }
                 LogThreadMsg::Cwe(cwe_warning) => match &cwe_warning.addresses[..] {
-                    [] => panic!("Unexpected CWE warning without origin address"),
+                    // Without an address of origin the warning cannot be deduplicated, so it is just kept.
+                    // (A panic here would end the collector thread and lose all other collected messages.)
+                    [] => cwes_without_address.push(cwe_warning),
                     [address, ..] => {
                         collected_cwes.insert(address.clone(), cwe_warning);
                     }
@@ -375,7 +379,10 @@ impl LogThread {
             .cloned()
             .chain(general_logs)
             .collect();
-        let cwes = collected_cwes.into_values().collect();
+        let cwes = collected_cwes
+            .into_values()
+            .chain(cwes_without_address)
+            .collect();
         (logs, cwes)
     }
 }
